@@ -212,6 +212,13 @@ def run_unit_stable(unit, threads=4, seed=None):
     solver instance (-V spinoff-all): after one failed query the shared Z3 process was observed to fail the *next*
     function too, so only the isolated run names obligations.  rlimit-type results are retried once with 4x rlimit."""
     r = classify(run_unit(unit, threads=threads, seed=seed))
+    if r["status"] == "undecided" and not r.get("undecided_errors"):
+        # a transient failure of the tool chain (killed process, I/O) must not make the check exit 2: one more attempt;
+        # a genuine extraction / rustc rejection fails again at once with the same reason
+        time.sleep(1)
+        first_reason = r.get("reason")
+        r = classify(run_unit(unit, threads=threads, seed=seed))
+        r["retried_after"] = first_reason
     try:
         known = set(x.get("obligation") for x in json.load(open(os.path.join(VERIF, "known_findings.json")))["findings"] if x.get("status") == "known")
     except Exception:
